@@ -570,14 +570,18 @@ impl<'a, const COLS: usize, const PIS: usize> Run<'a, COLS, PIS> {
     /// `rate_bits + k`, so every oracle has exactly the LDE size, Merkle path lengths, reduction layers and (zero-padded)
     /// final polynomial of a proof of 2^max_bits rows; the transcript observes the circuit's configuration. Only public
     /// functions of the library are used (`PolynomialBatch::from_values`, `prove_with_commitment`).
-    fn prove_short_at_higher_rate(&self, trace: &[Vec<F>], pis: &[F], k: usize) -> Result<anyhow::Result<Proof>, String> {
+    fn prove_short_at_higher_rate(&self, trace: &[Vec<F>], pis: &[F], k: usize, m: usize) -> Result<anyhow::Result<Proof>, String> {
         let cfg = &self.mode.config;
-        let circuit_params = cfg.fri_params(self.mode.max_bits);
+        // the FRI shape of an honest proof of 2^m rows (in the multi-degree mode: padded to the circuit's shape)
+        let shape = cfg.fri_params(m);
         let mut cfg2 = cfg.clone();
         cfg2.fri_config.rate_bits += k;
-        cfg2.fri_config.reduction_strategy = FriReductionStrategy::Fixed(circuit_params.reduction_arity_bits.clone());
+        cfg2.fri_config.reduction_strategy = FriReductionStrategy::Fixed(shape.reduction_arity_bits.clone());
         let cols = trace_columns(trace, COLS);
-        let final_len = final_poly_coeff_len(circuit_params.degree_bits, &circuit_params.reduction_arity_bits);
+        let (final_len, steps) = match &self.mode.verifier_params {
+            Some(vp) => (final_poly_coeff_len(vp.degree_bits, &vp.reduction_arity_bits), Some(vp.reduction_arity_bits.len())),
+            None => (final_poly_coeff_len(shape.degree_bits, &shape.reduction_arity_bits), None),
+        };
         catch(|| {
             let mut timing = TimingTree::default();
             let tc = PolynomialBatch::<F, PC, D>::from_values(cols.clone(), cfg2.fri_config.rate_bits, false, cfg2.fri_config.cap_height, &mut timing, None);
@@ -585,7 +589,7 @@ impl<'a, const COLS: usize, const PIS: usize> Run<'a, COLS, PIS> {
             ch.observe_elements(pis);
             cfg.observe(&mut ch);
             ch.observe_cap(&tc.merkle_tree.cap);
-            prove_with_commitment(&self.stark, &cfg2, &cols, &tc, None, None, &mut ch, pis, Some(final_len), None, &mut timing)
+            prove_with_commitment(&self.stark, &cfg2, &cols, &tc, None, None, &mut ch, pis, Some(final_len), steps, &mut timing)
         })
     }
 
@@ -967,9 +971,10 @@ impl<'a, const COLS: usize, const PIS: usize> Run<'a, COLS, PIS> {
             }
             // ---- fixed-length circuit, proof of a SHORTER satisfying trace committed at a higher rate, and the shorter
             //      degree_bits told to the circuit (the native verifier recovers the full length from the proof's shape) ----
-            17 | 18 if !multi && max_bits >= 2 => {
-                let k = 1 + frac(spec.told, max_bits - 1);
-                let m2 = max_bits - k;
+            17 | 18 if m >= 2 => {
+                // `m`: the supported length whose FRI shape the forged proof imitates (the circuit's length in the fixed mode)
+                let k = 1 + frac(spec.told, m - 1);
+                let m2 = m - k;
                 let lim = StarkLimits {
                     min_log_n: m2,
                     max_log_n: m2,
@@ -981,10 +986,16 @@ impl<'a, const COLS: usize, const PIS: usize> Run<'a, COLS, PIS> {
                     return Ok(());
                 }
                 let constant_trace = el.trace.iter().all(|r| *r == el.trace[0]);
-                match self.prove_short_at_higher_rate(&el.trace, &el.pis, k) {
+                // told: the short length the proof was built for, or (every fourth case) the length its shape suggests
+                let told = if spec.told % 4 == 3 { m } else { m2 };
+                match self.prove_short_at_higher_rate(&el.trace, &el.pis, k, m) {
                     Ok(Ok(p)) => {
-                        let class = if constant_trace { "shape:degenerate_constant_trace:shorter_trace_at_higher_rate" } else { "shorter_trace_at_higher_rate" };
-                        self.judge(&p, m2, class, false, spec, idx, st)
+                        let class = format!(
+                            "{}shorter_trace_at_higher_rate{}",
+                            if constant_trace { "shape:degenerate_constant_trace:" } else { "" },
+                            if told == m { ":told_shape_length" } else { "" }
+                        );
+                        self.judge(&p, told, &class, false, spec, idx, st)
                     }
                     Ok(Err(_)) | Err(_) => {
                         st.label("shorter_trace_at_higher_rate: prover refused");
